@@ -277,6 +277,27 @@ def run(chk, tier, seed, replay):
                               f"(macro fragments): {str(tb)[:200]}", case={"derive": rq["derive"], "item": rq["item"]}, expected=str(ta)[:400],
                               observed=str(tb)[:400], tags={"kind": "header_GroupInvariant", "derive": rq["derive"]})
         chk.cov["traces_validated_against_impl"] += len(greqs)
+        # RawInvariant: `r#a` and `a` are the same name. An item whose field and variant names are spelled as raw identifiers
+        # expands to the same tokens as the plain item, up to that spelling (names shown as text are the plain ones)
+        rreqs = []
+        for ci, (key, decl_text, _obs) in enumerate(CASES):
+            for derives, item in split_items(decl_text):
+                for d in derives:
+                    rreqs.append({"key": f"r{ci}|{d}|plain", "derive": d, "item": item, "tokens": True})
+                    rreqs.append({"key": f"r{ci}|{d}|raw", "derive": d, "item": item, "tokens": True, "raw_names": True})
+        robs = vlib.run_inproc("expand", rreqs)
+        for rq in rreqs[::2]:
+            a, b = robs[rq["key"]], robs[rq["key"].replace("|plain", "|raw")]
+            chk.cov["evaluations"] += 1
+            ta = a.get("tokens", "").replace("r#", "") if a["outcome"] == "ok" else a["outcome"]
+            tb = b.get("tokens", "").replace("r#", "") if b["outcome"] == "ok" else b["outcome"] + ":" + str(b.get("msg"))[:160]
+            if ta != tb:
+                i = next((n for n, (x, y) in enumerate(zip(ta, tb)) if x != y), min(len(ta), len(tb)))
+                chk.deviation(rq["key"].replace("|plain", "|RawInvariant"), "the expansion changes when field and variant names are spelled as raw "
+                              f"identifiers: ...{ta[max(0, i - 60):i + 80]!r} vs ...{tb[max(0, i - 60):i + 80]!r}",
+                              case={"derive": rq["derive"], "item": rq["item"]}, expected=ta[:400], observed=tb[:400],
+                              tags={"kind": "header_RawInvariant", "derive": rq["derive"]})
+        chk.cov["traces_validated_against_impl"] += len(rreqs)
     if replay and not reqs:
         pass
     # ---------------------------------------------------------------- (b) rustc, deny(warnings)
